@@ -76,6 +76,15 @@ pub fn iso_case(cs: u64, _args: &Args, mons: &mut Mons, case: &Value) {
                             }
                         }
                     }
+                    Err(e) if t.stamp != Some(stamp) => {
+                        // A transaction that lost the race (another commit happened since it first read
+                        // the heads) is doomed: its commit must fail with ConcurrentTransaction, and what
+                        // its add_commands returns meanwhile is outside the statement (it may, e.g., meet
+                        // a command both in its own and in the committed segments). Retire it.
+                        let _ = e;
+                        obs.count("adds_refused_in_stale_transaction", 1);
+                        trxs[which] = new_trx(&mut rep, &model, &mut rng);
+                    }
                     Err(e) => {
                         obs.fail("C08", &format!("add-in-interleaved-transaction-failed:{}", err_kind(&e)), json!({"script": script, "err": e.to_string()}));
                         break;
